@@ -293,6 +293,8 @@ class RpcNet(Engine):
             elif rng.random() < 0.3:
                 a['net'] = {'kind': 'chunk', 'sizes': [rng.choice([1, 2, 3, 7, 17, 64, 1000]) for _ in range(rng.randint(1, 4))],
                             'gap': rng.choice([0.0, 0.01, 2.0])}
+            if rng.random() < 0.05:
+                a['batch'] = {'n': rng.randint(1, 6), 'ids': rng.choice(['zero-based', 'zero-based', 'one-based', 'high', 'text'])}
             if rng.random() < 0.04:
                 a['register'] = rng.choice([-1, -3, -4, -6, -7, -10, -20, -22, -32600, -32601, 0, 1, 5])
             steps.append({'t': t, 'prio': 0, 'party': rng.randrange(nprox), 'op': 'call', 'args': a})
@@ -479,8 +481,55 @@ class RpcNet(Engine):
             raise box['exc']
         return box.get('ret')
 
+    def _batch_call(self, pidx, a):
+        """The proxy's batch entry point (`_batch`, the only one the library has): the caller numbers the entries
+        itself - conventionally from zero.  The replies come back in order, and the proxy's own request counter is
+        none of the batch's business: the ids of later single calls go on increasing."""
+        ctx = self.ctx
+        proxy = self._proxy(pidx)
+        if not hasattr(proxy, '_batch'):
+            return
+        b = a['batch']
+        ids = {'zero-based': list(range(b['n'])), 'one-based': list(range(1, b['n'] + 1)), 'high': [10 ** 6 + j for j in range(b['n'])],
+               'text': ['q%d' % j for j in range(b['n'])]}[b['ids']]
+        entries = [{'version': '1.1', 'method': 'getblockcount', 'params': [], 'id': i} for i in ids]
+        self.cur_net = {'kind': 'none'}
+        call = {'method': '_batch', 'a': dict(a, net={'kind': 'none'}, server={'behave': 'ok'}), 'pidx': pidx, 'net_fired': [], 'served': None, 'srv_fired': None, 'batch': True}
+        self.cur_call = call
+        ck = self.conn_of.get(pidx, pidx)
+        wedged = self.wedged.get(ck, False)
+        try:
+            ret = proxy._batch(entries)
+            exc = None
+        except StopRun:
+            raise
+        except Exception as e:            # noqa: BLE001
+            ret, exc = None, e
+        self.cur_call = None
+        self.cur_net = None
+        ctx.log(self.now, pidx, 'batch', [b['n'], b['ids']], 'return' if exc is None else 'raise:' + type(exc).__name__)
+        ctx.fault('batch-with-caller-chosen-ids')
+        if wedged or call['net_fired'] or not call['served']:
+            # the connection was not usable (left so by an earlier failure, or closed by the server after its
+            # previous reply): may fail, never wrong; this client reconnects
+            if exc is not None:
+                try:
+                    proxy.close()
+                except Exception:
+                    pass
+                self.wedged[ck] = False
+                ctx.probe('batch-failed-on-unusable-connection')
+                return
+        if exc is not None:
+            ctx.check(False, 'C19.faultfree', '_batch of %d entries raised %s: %s although server and transport behaved' % (b['n'], type(exc).__name__, str(exc)[:100]), method='_batch')
+            return
+        ok = isinstance(ret, list) and [r.get('id') for r in ret] == ids and [r.get('result') for r in ret] == [1000 + j for j in range(b['n'])]
+        ctx.check(ok, 'C19.result', '_batch of %d entries returned %r' % (b['n'], ret if not isinstance(ret, list) else ret[:3]), method='_batch')
+
     def _call(self, pidx, a):
         ctx = self.ctx
+        if a.get('batch'):
+            self._batch_call(pidx, a)
         m = a['method']
         self.cur_net = a['net']
         call = {'method': m, 'a': a, 'pidx': pidx, 'net_fired': [], 'served': None, 'srv_fired': None}
@@ -710,6 +759,13 @@ class RpcNet(Engine):
             ctx.check(False, 'C19.request', 'request body is not JSON: %r' % (e,))
             return [('eof', b'', 0.0)]
         call['req'] = rq
+        if isinstance(rq, list):
+            # a batch: the ids inside it are the caller's own; the proxy's counter is not involved
+            if not call.get('batch'):
+                ctx.check(False, 'C19.request', 'a single call was sent as a JSON array')
+            call['reply'] = ('ok', None)
+            text = dumps([{'result': 1000 + j, 'error': None, 'id': untok(e.get('id')) if isinstance(e, dict) else None} for j, e in enumerate(rq)])
+            return self._schedule(call, 200, text.encode('utf8'))
         rid = rq.get('id')
         # --- id monotonicity over the life of the proxy
         idv = int(rid.text) if isinstance(rid, NumTok) and rid.text.lstrip('-').isdigit() else None
